@@ -744,6 +744,9 @@ func (vc *VC) evalConversion(st *State, call *ast.CallExpr, to types.Type) *Valu
 			vc.safety(st, "narrow", call, app("<=", lo, v.Term, hi))
 		}
 		return intV(v.Term, to)
+	case isInteger(to) && !isInteger(from) && !isString(from) && v.K == VInt && isNumeric(from):
+		// float -> integer: value not modelled, only the range of the target type
+		return vc.freshValue(st, "fromfloat", to)
 	case isString(to) && isString(from):
 		return intV(v.Term, to)
 	case isString(to) && v.K == VSlice:
@@ -770,6 +773,11 @@ func (vc *VC) evalConversion(st *State, call *ast.CallExpr, to types.Type) *Valu
 	}
 	vc.unsupported(call, "conversion %s -> %s", from, to)
 	return nil
+}
+
+func isNumeric(T types.Type) bool {
+	b, ok := under(T).(*types.Basic)
+	return ok && b.Info()&types.IsNumeric != 0
 }
 
 func rangeWithin(flo, fhi, lo, hi string) bool {
